@@ -168,6 +168,12 @@ func c10Mutate(tok, variant, foreign, otherip string) (string, bool) {
 }
 
 func runC10(t *testing.T, c explore.Case) (res explore.Result) {
+	if strings.HasPrefix(c.Unit, "lin;") {
+		if linReplays["C10"] == nil {
+			return explore.Result{Viol: "HARNESS: serializability tier not built"}
+		}
+		return linReplays["C10"](t, c)
+	}
 	p := parseC10(c)
 	issuer := srcV4
 	user, ok := sources[p.user]
@@ -314,6 +320,10 @@ func TestC10(t *testing.T) {
 	defer w.Finish()
 	w.SetRule("time grid: 6 issue offsets within the 5-minute rotation x 20 use delays around the 10 and 15 minute bounds (to the nanosecond) x users {same address, same IP other port, v4-mapped form} x {announce_peer, immutable put, mutable put} x token obtained by {get_peers, get}, exact token; two tokens issued to one source 1 s .. 6 min apart (3 offsets x 4 gaps x 20 delays, either token used); token mutations: 160 single-bit flips, 20 truncations, 2 extensions, empty, absent, token of a second server, token issued to another IP; foreign users (other IPv4, IPv6) with the exact token; recording peer store / BEP 44 store / announce callback observe effects; oracle demands acceptance up to 10 min, rejection beyond 15 min and for every non-exact or foreign-IP token, and reply <=> effect")
 	idx := 0
+	lidx := 1000
+	if lt := linTiers["C10"]; lt != nil {
+		lt(t, w, &lidx)
+	}
 	run := func(p c10Params) {
 		c := p.Case()
 		w.Journal(c)
